@@ -599,7 +599,7 @@ fn convergent_denominators(num: &BigUint, den: &BigUint, max: &BigUint) -> Vec<u
     out
 }
 
-/// (p_lo, p_hi, L) triples with L a near-integer liquidity of the pair, for token A (x = L*d*2^64 / (p_lo*p_hi)) and for
+/// (p_lo, p_hi, L) triples with L a near-integer liquidity of the pair (plus the liquidities around the u64 boundary of the amount), for token A (x = L*d*2^64 / (p_lo*p_hi)) and for
 /// token B (x = L*d / 2^64).
 fn near_integer_triples(quick: bool) -> Vec<(u128, u128, u128)> {
     let mut ticks: Vec<i32> = vec![-443636, -443635, -5632, -128, -64, -3, -2, -1, 0, 1, 2, 63, 64, 5632, 443634];
@@ -623,6 +623,18 @@ fn near_integer_triples(quick: bool) -> Vec<(u128, u128, u128)> {
             }
             for q in convergent_denominators(&d, &(BigUint::one() << 64u32), &max) {
                 v.push((lo, hi, q));
+            }
+            // liquidities at which the exact amount passes the largest representable one (2^64 - 1): token A and token B
+            let two64 = BigUint::one() << 64u32;
+            for lstar in [(&two64 * bu(lo) * bu(hi)) / (&d << 64u32), (&two64 * &two64) / &d] {
+                for k in 0..6u32 {
+                    let x = &lstar + k;
+                    if x > bu(3) {
+                        if let Some(q) = (x - 3u32).to_u128() {
+                            v.push((lo, hi, q));
+                        }
+                    }
+                }
             }
         }
     }
